@@ -202,15 +202,15 @@ def modelEncode (st : Stack) (k : Kind) (h : DHdr) (m : AnyMsg) : Option Bytes :
 
 def modelDecode (st : Stack) (k : Kind) (data : Bytes) : Outcome (DHdr × AnyMsg) :=
   match st, k with
-  | .tlcp, .finished => liftT .blob (Codec.decFinished data)
-  | .tlcp, .serverHelloDone => liftT (fun _ => .unit) (Codec.decServerHelloDone data)
-  | .tlcp, .certificateVerify => liftT .blob (Codec.decCertificateVerify data)
-  | .tlcp, .clientKeyExchange => liftT .blob (Codec.decClientKeyExchange data)
-  | .tlcp, .serverKeyExchange => liftT .blob (Codec.decServerKeyExchange data)
-  | .tlcp, .certificate => liftT .cert (Codec.decCertificate Codec.codesT data)
-  | .tlcp, .certificateRequest => liftT .creq (Codec.decCertificateRequest Codec.codesT data)
-  | .tlcp, .serverHello => liftT .sh (Codec.decServerHello Codec.codesT data)
-  | .tlcp, .clientHello => liftT .ch (Codec.decClientHello Codec.codesT data)
+  | .tlcp, .finished => liftT .blob (Codec.unmarshalFinished Codec.codesT data)
+  | .tlcp, .serverHelloDone => liftT (fun _ => .unit) (Codec.unmarshalServerHelloDone Codec.codesT data)
+  | .tlcp, .certificateVerify => liftT .blob (Codec.unmarshalCertificateVerify Codec.codesT data)
+  | .tlcp, .clientKeyExchange => liftT .blob (Codec.unmarshalClientKeyExchange Codec.codesT data)
+  | .tlcp, .serverKeyExchange => liftT .blob (Codec.unmarshalServerKeyExchange Codec.codesT data)
+  | .tlcp, .certificate => liftT .cert (Codec.unmarshalCertificate Codec.codesT data)
+  | .tlcp, .certificateRequest => liftT .creq (Codec.unmarshalCertificateRequest Codec.codesT data)
+  | .tlcp, .serverHello => liftT .sh (Codec.unmarshalServerHello Codec.codesT data)
+  | .tlcp, .clientHello => liftT .ch (Codec.unmarshalClientHello Codec.codesT data)
   | .tlcp, .helloVerifyRequest => .reject
   | .dtlcp, .finished => liftD .blob (CodecDtlcp.decFinished Codec.codesD data)
   | .dtlcp, .serverHelloDone => liftD (fun _ => .unit) (CodecDtlcp.decServerHelloDone Codec.codesD data)
